@@ -46,6 +46,20 @@ fn sets_underline_style(g: &str) -> bool {
 
 fn main_check(ctx: &Ctx) -> Outcome {
     let mut out = Outcome::default();
+    // the functions under test must not consult the environment: a few representative inputs under a cleared and two
+    // hostile settings of the colour-related variables (before any worker thread exists)
+    fn env_digest() -> Vec<String> {
+        ["plain", "a\x1b[1;31mb\x1b[0m c", "\x1b[38;5;9;48;2;1;2;3mx\x1b[4:3my", "\x1b]0;t\x07x"].iter().map(|t| format!("{:?}", WinconBytes::new().extract_next(t.as_bytes()).collect::<Vec<_>>())).collect::<Vec<String>>()
+    }
+    if let Err(m) = vexplore::util::env_independence(env_digest) {
+        out.findings.push(Finding {
+            system: "WinconBytes::extract_next".into(),
+            clause: "environment-dependence".into(),
+            case: vec!["representative inputs".into()],
+            message: m.chars().take(900).collect(),
+            replay: serde_json::json!({"kind":"env"}),
+        });
+    }
     let quick = ctx.quick();
     let groups = sgr_groups();
 
@@ -291,6 +305,7 @@ fn replay(v: &serde_json::Value) -> Result<(), String> {
             }
             Ok(())
         }
+        "env" => Err("environment-dependence findings are replayed by re-running the check".into()),
         k => Err(format!("unknown replay kind {k}")),
     }
 }
